@@ -123,6 +123,10 @@ def classify(f, prog, name):
         if st[0] == "undefined":
             return "integer-division-undefined-operands-trap"
         return "trap-on-defined-input"
+    entry = [x for x in prog.fns if x.name == prog.entry][0]
+    if f["kind"] in ("value", "trace") and any(t == "Zst" for _, t in entry.params[:-1]):
+        # a zero-sized registered type in front of another parameter of the entry function
+        return "zero-sized-registered-argument-shifts-later-arguments"
     return f["kind"]
 
 
